@@ -6,6 +6,7 @@ import (
 	"fmt"
 	"go/types"
 	"sort"
+	"strings"
 
 	"golang.org/x/tools/go/ssa"
 )
@@ -92,13 +93,23 @@ type State struct {
 	dead   bool
 	// engine-side table: closure ref term -> closure record
 	closures map[string]*Closure
+	// shadow of stores through references allocated on this path (exact, see store)
+	shadow    map[string]any
+	freshRefs map[string]bool
+	composed  bool
 }
 
 func (s *State) top() *Frame { return s.frames[len(s.frames)-1] }
 
 func (s *State) clone() *State {
 	n := &State{vc: s.vc, heap: make(map[string]string, len(s.heap)), ghost: make(map[string]V, len(s.ghost)), heap0: s.heap0, ghost0: s.ghost0,
-		closures: make(map[string]*Closure, len(s.closures))}
+		closures: make(map[string]*Closure, len(s.closures)), shadow: make(map[string]any, len(s.shadow)), freshRefs: make(map[string]bool, len(s.freshRefs)), composed: s.composed}
+	for k, v := range s.shadow {
+		n.shadow[k] = v
+	}
+	for k, v := range s.freshRefs {
+		n.freshRefs[k] = v
+	}
 	n.pc = append(make([]string, 0, len(s.pc)+16), s.pc...)
 	n.trace = append([]string(nil), s.trace...)
 	for k, v := range s.heap {
@@ -158,8 +169,17 @@ func (s *State) heapGet(name, sort string) string {
 	return c
 }
 
+func (s *State) clearShadow(name string) {
+	for k := range s.shadow {
+		if strings.HasPrefix(k, name+"|") {
+			delete(s.shadow, k)
+		}
+	}
+}
+
 func (s *State) heapSet(name, sort, term string) {
 	s.heapGet(name, sort)
+	s.clearShadow(name)
 	c := s.fresh(name+"_", sort)
 	s.assume(eq(c, term))
 	s.heap[name] = c
@@ -167,6 +187,7 @@ func (s *State) heapSet(name, sort, term string) {
 
 func (s *State) heapHavoc(name, sort string) string {
 	s.heapGet(name, sort)
+	s.clearShadow(name)
 	c := s.fresh(name+"_hv", sort)
 	s.heap[name] = c
 	return c
@@ -207,6 +228,37 @@ func (s *State) load(a *Addr) V {
 		so = si.Sorts[fi]
 	}
 	return V{term, so, a.ElemT}
+}
+
+// storeAny is store, remembering engine-side values (closures) written through
+// references allocated on this path, so that a later load returns the same record.
+func (s *State) storeAny(a *Addr, val any, v V) {
+	var keep map[string]any
+	simple := a.Idx == nil && len(a.Path) == 0
+	if simple && s.freshRefs[a.Ref.T] {
+		keep = map[string]any{}
+		for k, x := range s.shadow {
+			if strings.HasPrefix(k, a.Heap+"|") {
+				keep[k] = x
+			}
+		}
+	}
+	s.store(a, v)
+	if keep != nil {
+		for k, x := range keep {
+			s.shadow[k] = x
+		}
+		s.shadow[a.Heap+"|"+a.Ref.T] = val
+	}
+}
+
+func (s *State) loadAny(a *Addr) (any, bool) {
+	if a.Idx == nil && len(a.Path) == 0 {
+		if x, ok := s.shadow[a.Heap+"|"+a.Ref.T]; ok {
+			return x, true
+		}
+	}
+	return nil, false
 }
 
 func (s *State) store(a *Addr, v V) {
@@ -252,6 +304,7 @@ func (s *State) alloc(prefix string) V {
 	s.assume(app(">", r, "0"))
 	s.assume(not(sel(alive, r)))
 	s.heapSet("alive", aliveSort, sto(alive, r, "true"))
+	s.freshRefs[r] = true
 	return V{T: r, S: SInt}
 }
 
